@@ -146,9 +146,9 @@ func init() {
 		Cases: func(master uint64, tier string) []Case {
 			if tier == "thorough" {
 				// a larger pool drawn from the master seed: 60 keys per type plus 12 + 12 leading-zero keys per curve
-				return seqCases(master, 1, func(int) int { return 5*60 + 4*24 })
+				return seqCases(master, 1, func(int) int { return 5*60 + 4*24 + 8 })
 			}
-			return seqCases(master, 1, func(int) int { return 62 })
+			return seqCases(master, 1, func(int) int { return 70 })
 		},
 		Pool: func(tier string) [3]uint64 {
 			if tier == "thorough" {
@@ -157,7 +157,7 @@ func init() {
 			return DefaultPool
 		},
 		Gen:            func(c Case, pool *Pool) *Plan { return GenJWK(c.Seed, c.Variant, pool) },
-		RequiredProbes: map[string][]string{"quick": {"leading_zero_x0_secp256k1", "leading_zero_y0_secp256k1", "leading_zero_x0_P-256", "leading_zero_x0_P-521"}, "thorough": {"leading_zero_x0_secp256k1", "leading_zero_y0_secp256k1", "leading_zero_x0_P-384", "leading_zero_y0_P-521"}},
+		RequiredProbes: map[string][]string{"quick": {"leading_zero_x0_secp256k1", "leading_zero_y0_secp256k1", "leading_zero_x0_P-256", "leading_zero_x0_P-521", "leading_zero_x0y0_secp256k1", "leading_zero_x0y0_P-384"}, "thorough": {"leading_zero_x0_secp256k1", "leading_zero_y0_secp256k1", "leading_zero_x0_P-384", "leading_zero_y0_P-521"}},
 		Components: enumComponents(map[string]string{"pubkey.GetPublicKeyJWK": "real", "jwsutil.JWK.UnmarshalJSON / MarshalJSON, GetED25519PublicKey, VerifySignature": "real",
 			"commitment.GetCommitment": "real", "wire between wallet and node corrupting the JWK": "stub (adversary)"}),
 		Assumptions: worldAssumptions,
